@@ -29,7 +29,15 @@ pub async fn restart_node_service(
     // verification harness only: `ServiceController {}` below is the forwarding stand-in of `crate::verif`
     #[cfg(maidsafe_safe_network_verif)]
     use crate::verif::ServiceController;
-    let nodes_len = node_registry.nodes.len();
+    // A replacement service is numbered after the highest number in use, not after the number of
+    // entries: a partially failed `add` leaves gaps, and counting entries would hand out an existing
+    // name (and with it an existing data directory) again.
+    let highest_node_number = node_registry
+        .nodes
+        .iter()
+        .map(|node| node.number)
+        .max()
+        .unwrap_or(0);
     let current_node_mut = node_registry
         .nodes
         .iter_mut()
@@ -97,7 +105,7 @@ pub async fn restart_node_service(
         service_manager.start().await?;
     } else {
         debug!("Starting a new node since retain peer id is false.");
-        let new_node_number = nodes_len + 1;
+        let new_node_number = highest_node_number + 1;
         let new_service_name = format!("antnode{new_node_number}");
 
         // example path "log_dir_path":"/var/log/antnode/antnode18"
@@ -225,7 +233,7 @@ pub async fn restart_node_service(
             network_id: current_node_clone.network_id,
             node_ip: current_node_clone.node_ip,
             node_port: None,
-            number: new_node_number as u16,
+            number: new_node_number,
             owner: None,
             peer_id: None,
             peers_args: current_node_clone.peers_args.clone(),
@@ -248,10 +256,14 @@ pub async fn restart_node_service(
             Box::new(ServiceController {}),
             VerbosityLevel::Normal,
         );
-        service_manager.start().await?;
+        let start_result = service_manager.start().await;
+        // The service has been installed, so it is recorded whatever the outcome of the start (the
+        // daemon saves the registry even when this function fails): otherwise nothing would know
+        // about it and its name would be handed out again.
         node_registry
             .nodes
             .push(service_manager.service.service_data.clone());
+        start_result?;
     };
 
     Ok(())
